@@ -296,6 +296,25 @@ func (x *Exec) alloc(st *State, fr *Frame, v *ssa.Alloc) {
 	x.storeAddrRaw(st, a, zero)
 	x.dry, x.dryEff = sd, se
 	st.regs[v] = Val{T: v.Type(), L: []*Term{ref}}
+	if n, ok := t.(*types.Named); ok && !x.dry {
+		for _, cf := range x.E.files {
+			for _, zf := range cf.ZeroFacts {
+				if zf.Type == n.Obj().Name() {
+					env := &Env{x: x, st: st, old: st, vars: map[string]Val{zf.Var: st.regs[v]}, pkgPath: fnPkgPath(fr.fn)}
+					func() {
+						defer func() {
+							if r := recover(); r != nil {
+								if _, isE := r.(evalError); !isE {
+									panic(r)
+								}
+							}
+						}()
+						st.assume(x.evalBool(env, zf.E))
+					}()
+				}
+			}
+		}
+	}
 }
 
 func (x *Exec) unop(st *State, fr *Frame, v *ssa.UnOp) {
